@@ -2,6 +2,7 @@ package checks
 
 import (
 	"fmt"
+	"go/token"
 	"go/types"
 	"strings"
 
@@ -151,6 +152,10 @@ func runC16(c *Ctx) {
 		lr.set("E3.sweep", name+" / the first range the sweep can emit starts at offset 0", startsAtZero, "no emitted range starts at the constant offset 0: a gap at the beginning of the file is never reported")
 		lr.set("E3.sweep", name+" / every emitted range is non-empty and wrap-free", allNonEmpty, d)
 		R.Notes["sweep_appends_observed"] = len(apps)
+		{
+			okTail, dTail := c.sweepTail(sweep)
+			lr.set("E3.sweep", name+" / every return has passed the tail test against FileSize", okTail, dTail)
+		}
 	}
 	// ---- 2a. handler stores the list on every path that computed it; stage; the file it is computed for
 	c.completionWiring(lr, sweep, evt)
@@ -302,7 +307,7 @@ func runC16(c *Ctx) {
 		lr.set("E3.wire", shortFn(enc)+" / each entry is appended as offset then length (u32 each)", okEnc, dEnc)
 	}
 	lr.flush(c, c.P.RelPos(sweep.Pos()))
-	R.Require("E3.sweep", 2, "")
+	R.Require("E3.sweep", 3, "")
 	R.Require("E3.wiring", 3, "")
 	R.Require("E3.wire", 3, "")
 	R.Require("S.sweep-sorted", 1, "")
@@ -760,4 +765,91 @@ func recordRestore(v ssa.Value, fn *ssa.Function) bool {
 		}
 	}
 	return n > 0
+}
+
+// sweepTail (shared by C15 and C16):
+// the tail: every way out of the sweep passes the comparison of the running offset with FileSize (under which the
+// last range [current, FileSize) is emitted). A return in front of it - "nothing recorded, nothing to sort" -
+// reports a file of which nothing has arrived as complete.
+func (c *Ctx) sweepTail(sweep *ssa.Function) (bool, string) {
+	var tailTests []*ssa.BasicBlock
+	fromFileSize := func(v ssa.Value) bool {
+		for {
+			switch x := v.(type) {
+			case *ssa.Convert:
+				v = x.X
+				continue
+			case *ssa.ChangeType:
+				v = x.X
+				continue
+			}
+			break
+		}
+		_, f, ok := fieldLoad(v)
+		return ok && f == "FileSize"
+	}
+	isField := func(v ssa.Value) bool {
+		for {
+			switch x := v.(type) {
+			case *ssa.Convert:
+				v = x.X
+				continue
+			case *ssa.ChangeType:
+				v = x.X
+				continue
+			}
+			break
+		}
+		_, _, ok := fieldLoad(v)
+		return ok
+	}
+	// "received size == file size: nothing is missing" may answer at once; the returns under that equality are exempt
+	type edge struct {
+		b *ssa.BasicBlock
+		i int
+	}
+	var completeEdges []edge
+	for _, b := range sweep.Blocks {
+		if iff, isIf := b.Instrs[len(b.Instrs)-1].(*ssa.If); isIf {
+			cmp, isCmp := iff.Cond.(*ssa.BinOp)
+			if !isCmp || !(fromFileSize(cmp.X) || fromFileSize(cmp.Y)) {
+				continue
+			}
+			if isField(cmp.X) && isField(cmp.Y) {
+				// two fields of the record compared (CurrentSize with FileSize)
+				switch cmp.Op {
+				case token.EQL:
+					completeEdges = append(completeEdges, edge{b, 0})
+				case token.NEQ:
+					completeEdges = append(completeEdges, edge{b, 1})
+				}
+				continue
+			}
+			tailTests = append(tailTests, b)
+		}
+	}
+	okTail, dTail := len(tailTests) > 0, "the sweep never compares its running offset with FileSize: the range behind the last recorded chunk is not reported"
+	if okTail {
+		for _, b := range sweep.Blocks {
+			ret, isR := b.Instrs[len(b.Instrs)-1].(*ssa.Return)
+			if !isR {
+				continue
+			}
+			dom := false
+			for _, t := range tailTests {
+				if t.Dominates(b) {
+					dom = true
+				}
+			}
+			for _, e := range completeEdges {
+				if edgeDominates(e.b, e.i, b) {
+					dom = true
+				}
+			}
+			if !dom {
+				okTail, dTail = false, "the sweep can return at "+c.P.RelPos(ret.Pos())+" without having compared the running offset with FileSize: on that path the range up to the end of the file is not reported (a file of which nothing was recorded is answered 'complete')"
+			}
+		}
+	}
+	return okTail, dTail
 }
